@@ -38,7 +38,9 @@ CLAIMED["C05"] = {
             "translated on every run into Lean data (chain of Figure 34, arms of Figure 35, dispatch, as_ordering, both constructors) and the "
             "interpretation of that translation is proved equal to the model's comparison for all data sets (generated_compare_is_model, "
             "generated_as_ordering_is_model, generated_of_announce_is_model, generated_of_own_is_model); so is the state decision of bmc/bmca.rs "
-            "(guard, clockClass range, which best message each comparison looks at, every result arm: generated_state_decision_is_model). The unrestricted transitivity claim is refuted by a kernel-checked "
+            "(guard, clockClass range, which best message each comparison looks at, every result arm: generated_state_decision_is_model), BestAnnounceMessage::compare (generated_best_compare_is_model) and the "
+            "application of the decision, Port::set_recommended_port_state of port/bmca.rs (per decision code group and current port state: move or "
+            "stay, target state, pending timer actions: generated_port_move_is_model). The unrestricted transitivity claim is refuted by a kernel-checked "
             "witness (IEEE's algorithm itself). Tie: exhaustive/random CMP stream, BMCA scenarios through real ports and the mixed stream, "
             "all compared with the model (port states, the master each Slave port listens to — hook verif_remote_master — and every data set); "
             "independent Rust transcription of Figures 34/35, an order-permutation oracle and a slave-bound-to-parent oracle on the implementation.",
